@@ -8,6 +8,10 @@ import traceback
 from vf import xform
 
 
+class HarnessProblem(Exception):
+    """raised by a check's `apply` when its *own* scaffolding (scratch files, directories) fails: verdict HARNESS"""
+
+
 def source_key(case):
     h = hashlib.sha1()
     for part in (case['sources'], case['driver'], case.get('extra', ())):
@@ -40,6 +44,8 @@ def run_case_with_orig(case, apply, original, base=None, flags=xform.FLAGS, keep
             new += [[f, t] for f, t in ret.items() if f not in files]
         else:
             new = [[f, files[f].to_fortran()] for f, _ in case['sources']]
+    except HarnessProblem as ex:
+        return dict(verdict='HARNESS', detail=f'harness scaffolding failed: {ex}', changed=False)
     except Exception as ex:  # pylint: disable=broad-except
         tb = traceback.format_exc().strip().splitlines()
         where = next((ln.strip() for ln in reversed(tb) if ln.strip().startswith('File "') and '/loki/' in ln), '')
@@ -105,3 +111,30 @@ def replay_case(case, apply, flags=xform.FLAGS):
     if k not in _ORIG_CACHE:
         _ORIG_CACHE[k] = build_original(case, flags=flags)
     return run_case_with_orig(case, apply, _ORIG_CACHE[k], flags=flags)
+
+
+def confirm_violations(ctx, cases, results, group_worker, good=('ok', 'unchanged-ok', 'refused')):
+    """Every violating case is judged a second time (fresh scratch directory, usually another worker process).  The
+    machine is shared and at times heavily oversubscribed; a verdict that does not repeat is judged a third time and the
+    majority wins.  Every disagreement is recorded in ctx.notes with both details, so a nondeterministic transformation
+    cannot disappear silently: it shows up as `flaky` in the evidence."""
+    idx = [i for i, r in enumerate(results) if r['verdict'] not in good and r['verdict'] != 'HARNESS']
+    if not idx:
+        return results, 0
+    second = judge_grouped(ctx, [cases[i] for i in idx], group_worker)
+    results = list(results)
+    flaky = [(i, r2) for i, r2 in zip(idx, second) if r2['verdict'] != results[i]['verdict']]
+    if flaky:
+        third = judge_grouped(ctx, [cases[i] for i, _ in flaky], group_worker)
+        for (i, r2), r3 in zip(flaky, third):
+            r1 = results[i]
+            ctx.note(f'flaky verdict for {cases[i]["id"]}: run1 {r1["verdict"]} ({r1["detail"][:200]}) / run2 {r2["verdict"]} '
+                     f'({r2["detail"][:200]}) / run3 {r3["verdict"]} ({r3["detail"][:200]})')
+            votes = [r1, r2, r3]
+            for cand in votes:
+                if sum(1 for v in votes if v['verdict'] == cand['verdict']) >= 2:
+                    results[i] = cand
+                    break
+            else:
+                results[i] = r1
+    return results, len(flaky)
